@@ -20,10 +20,10 @@ requests (one per line):
        (S solid, L Fluid, C Custom; the table must hold every temperature of the request);
        op := T~t | M~matIndex | H~key~v (hot set) | K~key~v (cold set) | N~[nd..] | qF | qD~key | qDc~key | qDT~key~Tc
              | qA | qAc | qAT~Tc | qV | qM | qN            -> [out,..]  out := [rat,..] | reject
-  bhist <transitive T|F> <height> <maxArea> [mat,..] <comp('|'comp)*> [bop,..]
+  bhist <transitive T|F>[<linkClears T|F>] <height> <maxArea> [mat,..] <comp('|'comp)*> [bop,..]
        a block of linked components with caches (Model/Thermal.lean `brun`); the derived shape is implicit;
        comp := <Shape|U>;matIndex;tin;t0;[nd..];[w..];name=val,name=@j.key,..
-       bop := T~i~t | M~i~matIndex | H~i~key~v | K~i~key~v | HR~i~key~v | KR~i~key~v (retainLink=True) | qD~i~key | qDc~i~key | qA~i | qV~i | qM~i | qDA | qDV
+       bop := T~i~t | M~i~matIndex | H~i~key~v | K~i~key~v | HR~i~key~v | KR~i~key~v (retainLink=True) | L~i~key~j~key2 (setLink) | qD~i~key | qDc~i~key | qA~i | qV~i | qM~i | qDA | qDV
 -/
 
 def parseKind? (s : String) : Option Kind :=
@@ -169,6 +169,10 @@ def parseBOp? (mats : List (Mat Rat)) (s : String) : Option (BOp Rat × List Rat
     let i ← parseNat? i
     let v ← parseRat? v
     some (.setDimRetain i k v true, [])
+  | ["L", i, k, j, k2] => do
+    let i ← parseNat? i
+    let j ← parseNat? j
+    some (.setLink i k j k2, [])
   | ["qD", i, k] => (parseNat? i).map (fun i => (.qDim i k false, []))
   | ["qDc", i, k] => (parseNat? i).map (fun i => (.qDim i k true, []))
   | ["qA", i] => (parseNat? i).map (fun i => (.qArea i, []))
@@ -179,7 +183,14 @@ def parseBOp? (mats : List (Mat Rat)) (s : String) : Option (BOp Rat × List Rat
   | _ => none
 
 def bhistAnswer (tr h maxA mats comps ops : String) : Option String := do
-  let tr ← parseBool? tr
+  -- flags: "T"/"F" (transitive; setLink does not clear) or two letters (transitive, linkClears)
+  let (tr, lc) ← match tr.toList with
+    | [a] => (parseBool? (String.singleton a)).map (fun a => (a, false))
+    | [a, b] => do
+      let a ← parseBool? (String.singleton a)
+      let b ← parseBool? (String.singleton b)
+      some (a, b)
+    | _ => none
   let h ← parseRat? h
   let maxA ← parseRat? maxA
   let ms ← parseList? parseMat? mats
@@ -189,7 +200,7 @@ def bhistAnswer (tr h maxA mats comps ops : String) : Option String := do
   if ms.any (fun m => temps.any (fun t => !m.2.contains t)) then none else
   if h = 0 then none else
   let e : BEnv Rat := { same := fun a b => decide ((if a ≤ b then b - a else a - b) ≤ mkRat 1 10000000000),
-                        pi := pyPi, sqrt3 := pySqrt3, sqrtF := sqrtApprox, h := h, maxArea := maxA, sym := 1, transitive := tr }
+                        pi := pyPi, sqrt3 := pySqrt3, sqrtF := sqrtApprox, h := h, maxArea := maxA, sym := 1, transitive := tr, linkClears := lc }
   let b : BState Rat := { comps := cs.map (·.1), stale := true, dArea := none, dVol := none }
   some (showList (showOpt (showList showRat)) (brun e b (ops.map (·.1))).2)
 
